@@ -46,8 +46,21 @@ pub struct Projection {
 }
 
 impl Projection {
+  /// id of a node handed out by ast-grep. Identity = (tree-sitter node id, byte range, kind id).
+  /// tree-sitter's cursor can report a different (un-aliased) kind for the very same node after
+  /// goto_previous_sibling in error-recovery trees (`let` vs `identifier`); that is the parser library
+  /// disagreeing with itself, so the lookup falls back to (node id, byte range).
   pub fn id_of(&self, n: &N) -> usize {
-    *self.index.get(&key(n)).unwrap_or(&0)
+    if let Some(i) = self.index.get(&key(n)) {
+      return *i;
+    }
+    let k = key(n);
+    self
+      .index
+      .iter()
+      .find(|(q, _)| q.0 == k.0 && q.1 == k.1 && q.2 == k.2)
+      .map(|(_, i)| *i)
+      .unwrap_or(0)
   }
   pub fn ids<'a>(&self, it: impl Iterator<Item = N<'a>>) -> Vec<usize> {
     it.map(|n| self.id_of(&n)).collect()
